@@ -30,8 +30,10 @@ Atoms(t) == CASE t.n = "bool" -> {"b:0", "b:1"}
 KeyOK(v) == ~(IsAtom(v) /\ v.a = "dbl:nan")   \* NaN is not a usable Go map key / set element
 
 RECURSIVE Vals(_, _), Prod(_, _, _, _)
-FieldVals(f, d, n) ==
-  LET base == IF n = 0 THEN Vals(f.type, d) ELSE Take(Vals(f.type, d), n) IN
+\* f.w > 0 caps the number of values of a field (structs with many fields would otherwise explode)
+FieldVals(f, d, n0) ==
+  LET n == IF f.w > 0 /\ (n0 = 0 \/ f.w < n0) THEN f.w ELSE n0
+      base == IF n = 0 THEN Vals(f.type, d) ELSE Take(Vals(f.type, d), n) IN
   base \cup (IF (f.req = "optional" /\ (NoDef(f) \/ ~IsScalar(f.type))) \/ ~IsScalar(f.type) THEN {NIL} ELSE {})
        \cup (IF ~NoDef(f) THEN {f.def} ELSE {})
 Prod(s, i, d, n) ==
@@ -107,20 +109,6 @@ VARIABLE c
 Init == c = [k |-> "root"]
 Next == \/ c.k = "root" /\ c' \in {[k |-> "struct", s |-> s] : s \in StructNames}
         \/ c.k = "struct" /\ c' \in CasesOf(c.s)
-
-\* ---- normal form of a value as the reference reader reconstructs it from its own encoding
-RECURSIVE Norm(_, _, _)
-Norm(t, v, opt) ==
-  CASE IsScalar(t) -> v
-    [] t.n \in {"list", "set"} -> IF IsNil(v) THEN (IF opt THEN NIL ELSE [l |-> <<>>])
-                                  ELSE [l |-> [i \in 1..Len(v.l) |-> Norm(t.v, v.l[i], FALSE)]]
-    [] t.n = "map" -> IF IsNil(v) THEN (IF opt THEN NIL ELSE [m |-> <<>>])
-                      ELSE [m |-> [i \in 1..Len(v.m) |-> <<Norm(t.k, v.m[i][1], FALSE), Norm(t.v, v.m[i][2], FALSE)>>]]
-    [] t.n = "struct" ->
-         IF IsNil(v) THEN (IF opt THEN NIL ELSE InitialStruct(t.s))
-         ELSE [s |-> [nm \in DOMAIN v.s |->
-                 LET f == Fields(t.s)[CHOOSE i \in FieldIdx(t.s) : Fields(t.s)[i].name = nm] IN
-                 IF Present(f, v.s[nm]) THEN Norm(f.type, v.s[nm], f.req = "optional") ELSE Initial(f)]]
 
 \* ---- design-level invariants (the specification checked against itself)
 WriterParses ==      \* the canonical encoding parses, schema-less, to the order-free tree of the value
